@@ -2,7 +2,7 @@
 import copy
 import warnings
 import numpy as np
-from ..core import CTX, attempt, held, violated, undefined, same_array, peek, short, lists_same, same_dtype
+from ..core import CTX, attempt, quiet_filters, held, violated, undefined, same_array, peek, short, lists_same, same_dtype
 from .. import gen, contracts
 from . import c02
 
@@ -47,7 +47,7 @@ def chain_step(st, x, rows, lib):
         return np.unique(x, axis=-1), [np.unique(r) for r in rows]
     if op == "astype":
         with warnings.catch_warnings():
-            warnings.simplefilter("ignore")
+            quiet_filters()
             return x.astype(st[1]), [r.astype(st[1]) for r in rows]
     if op == "neg":
         return np.negative(x), [np.negative(r) for r in rows]
@@ -129,7 +129,7 @@ def chain_step_rows(st, rows):
         out[i][j] = np.array(st[3]).astype(rows[i].dtype)
         return out
     with warnings.catch_warnings():
-        warnings.simplefilter("ignore")
+        quiet_filters()
         return {"sort": lambda: [np.sort(r) for r in rows], "unique": lambda: [np.unique(r) for r in rows], "astype": lambda: [r.astype(st[1]) for r in rows],
                 "neg": lambda: [np.negative(r) for r in rows], "abs": lambda: [np.absolute(r) for r in rows], "rev": lambda: [r[::-1] for r in rows],
                 "cumsum": lambda: [np.cumsum(r) for r in rows], "diff": lambda: [np.diff(r, n=st[1]) for r in rows], "rowsel": lambda: [rows[i] for i in st[1]]}[op]()
